@@ -910,7 +910,10 @@ pub fn parse(lex_tokens: &Vec<LexerToken>) -> Result<ParseResult, CompilerError>
             composition_error(previous_second_def, secondary_definition, token)?;
         }
 
-        if !(waiting_for_operand && is_trivia) {
+        // annotations are transparent, what stands before one is what the next token has to compose with
+        let is_annotation = secondary_definition == SecondaryDefinition::Annotation;
+
+        if !(waiting_for_operand && is_trivia) && !is_annotation {
             previous_second_def = secondary_definition;
         }
 
